@@ -168,7 +168,9 @@ def check_script(script, rec, do_valgrind, instrument=False):
             rec.timeout()
             return None
         kind2 = asan_kind(obs2.stderr) if not (obs2.undefined or obs2.gen_error or obs2.compile_error) else None
-        if kind2 and kind2.startswith("asan-"):
+        # (only findings about storage that is gone or was never there: an index outside an array that exists is
+        # the bounds error itself, seen a second time -- C03's business)
+        if kind2 in ("asan-heap-use-after-free", "asan-SEGV", "asan-attempting-double-free"):
             rec.violation(f"sanitizer:{kind2}:once-the-bounds-check-is-off", obs2.stderr[-1800:], wit)
             return False
         rec.count("runtime_errors_unrelated_to_storage(C03 territory)")
